@@ -92,10 +92,11 @@ def main(tier, replay=None):
     for kind in ("Table", "Tree"):
         WRAP = sorted([55 * i for i in range(6)] + [5 * 11 * 23 * 53 * j - 1 for j in range(1, 5)] + [5 * 11 * 23 * 53 * j for j in (1, 2)])   # homes 0 and last
         for kt, vt, keys in (("Int", "Int", list(range(0, 12 * 55, 55))), ("String", "Int", sorted(b"k%d" % i for i in range(12))),
-                             ("Probe", "Probe", list(range(0, 12 * 55, 55))), ("Int", "Probe", WRAP)):
+                             ("Probe", "Probe", list(range(0, 12 * 55, 55))), ("Int", "Probe", WRAP),
+                             ("Odd12", "Int", list(range(0, 12 * 55, 55))), ("Int", "Odd12", list(range(0, 12 * 55, 55)))):
             cm.run(mapgen.header(kt, vt, keys, [7, 8, 9]),
                    [mapgen.random_history(rng, kind, 12, 3, nops(), p_fail=0.5, with_bad=True) for _ in range(nexec)],
-                   "random/%s/%s" % (kind, kt))
+                   "random/%s/%s-%s" % (kind, kt, vt))
 
     chk.cov["rule"] = ("an execution = a history of container calls in which invalid arguments of every class are interleaved "
                        "with valid operations; each failing call must raise the documented exception type and leave the "
